@@ -25,8 +25,11 @@ func enumerate(tier string) []caseT {
 	for i := range ps {
 		p := &ps[i]
 		for it, item := range p.items {
-			for _, mode := range []string{"prefix", "subst", "field"} {
+			for _, mode := range []string{"prefix", "subst", "field", "shape"} {
 				sp := spaceOf(p, item, mode)
+				if sp == 0 {
+					continue
+				}
 				if tier != "thorough" && mode != "prefix" && sp > chunk {
 					// quick: all prefixes, and for the larger spaces one sampled chunk per item and mode
 					out = append(out, caseT{p.name, it, mode, -1, chunk / 2})
@@ -56,7 +59,7 @@ func meta() core.Meta {
 	}
 	return core.Meta{
 		Engine: "c04", Property: "C04", Level: "fault_enumeration",
-		Rule:       "evaluation = one delivery: a valid item reaches a real consumer after exactly one fault of the seam: truncation at every offset (all prefixes, always complete), substitution of one byte over a structure-aware alphabet of 10 values per position, corruption of every DER length octet (10 values) resp. every 32-bit window of binary formats (0, 1, max), and for the flows Byzantine-peer damage before sealing, emptied sequences, lying TCP length prefixes, stalled peers; quick samples the substitution and field spaces of large items, thorough enumerates them; distinct = distinct (delivery point, item, mode, chunk); non-trivial = every case (each contains damaged deliveries)",
+		Rule:       "evaluation = one delivery: a valid item reaches a real consumer after exactly one fault of the seam: truncation at every offset (all prefixes, always complete), substitution of one byte over a structure-aware alphabet of 10 values per position, corruption of every DER length octet (10 values) resp. every 32-bit and 64-bit window of binary formats, re-encoding of a DER item with one element of its TLV tree (nested encodings included) emptied / one byte shorter / one or four bytes longer / given a leading zero / duplicated / removed and all enclosing lengths recomputed (structurally valid, unusual sizes and multiplicities), and for the flows Byzantine-peer damage before sealing, emptied sequences, lying TCP length prefixes, stalled peers; quick samples the substitution and field spaces of large items, thorough enumerates them; distinct = distinct (delivery point, item, mode, chunk); non-trivial = every case (each contains damaged deliveries)",
 		SweepQuick: q, SweepThorough: t,
 		SeededQuick: 0, SeededThorough: 0,
 		WorkloadProbes: []string{"deliveries-der", "deliveries-binary", "deliveries-text"},
